@@ -170,7 +170,10 @@ func c10Count(r *vu.RNG) int {
 	case 2:
 		return 62 + r.Intn(5) // around the one-byte/two-byte compact boundary of the index
 	case 3:
-		return 100 + r.Intn(120)
+		if r.Chance(1, 2) {
+			return 100 + r.Intn(120)
+		}
+		return 2 + r.Intn(20)
 	case 4:
 		if r.Chance(1, 2) {
 			return 250 + r.Intn(60) // index crossing 255/256 (a one-byte index counter would wrap)
@@ -284,6 +287,23 @@ func c10Generate(r *vu.RNG, n int, emit func(string)) {
 		"root 100 0404010402", "root 101 0404010402", "root 102 0404010402",
 	} {
 		emit(s)
+	}
+	// deterministic witnesses for index keys beyond the one-byte compact mode (65 values) and beyond one
+	// byte (257 values), and for duplicate keys in a list of more than 12 entries (later value wins)
+	for _, k := range []int{65, 257} {
+		d := c10Compact(k)
+		for i := 0; i < k; i++ {
+			d = append(d, 0x04, byte(i))
+		}
+		emit("ord 0 " + vu.Hex(d))
+		emit("ord 1 " + vu.Hex(d))
+	}
+	{
+		d := c10Compact(16)
+		for i := 0; i < 16; i++ {
+			d = append(d, 0x04, byte(1+i%3), 0x04, byte(0xa0+i))
+		}
+		emit("root 0 " + vu.Hex(d))
 	}
 	for i := 0; i < n; i++ {
 		ord := r.Chance(1, 2)
